@@ -1,0 +1,33 @@
+//go:build verif
+
+package NoKV
+
+// Trusted ghost-effect contracts for govc (see /verif/DESIGN.md); compiled only with
+// -tags verif. The versioned-entry API of DB is the storage boundary of the
+// Percolator layer: its effect is recorded in ghost counters so that callers can be
+// held to ordering obligations. Nothing here is verified against the engine itself.
+
+//@ ghost var dbWrites Int
+//@ ghost var writeCFSets Int
+//@ ghost var lockDeletes Int
+//@ ghost var defaultDeletes Int
+//@ ghost var writeAfterLockDelete bool
+
+//@ func (*DB).SetVersionedEntry
+//@   trusted
+//@   ghost dbWrites = dbWrites + 1
+//@   ghost writeCFSets = (uint8(cf) == 2 ? writeCFSets + 1 : writeCFSets)
+//@   ghost writeAfterLockDelete = writeAfterLockDelete || (uint8(cf) == 2 && lockDeletes > 0)
+//@   modifies nothing
+
+//@ func (*DB).DeleteVersionedEntry
+//@   trusted
+//@   ghost dbWrites = dbWrites + 1
+//@   ghost lockDeletes = (uint8(cf) == 1 ? lockDeletes + 1 : lockDeletes)
+//@   ghost defaultDeletes = (uint8(cf) == 0 ? defaultDeletes + 1 : defaultDeletes)
+//@   modifies nothing
+
+//@ func (*DB).GetVersionedEntry
+//@   trusted
+//@   tag ghost-pure
+//@   modifies nothing
